@@ -193,7 +193,51 @@ def check_cuboid_mixed(case):
     return ("mixed", dim), fails
 
 
-DISPATCH = {"pos": check_positions, "sep": check_pairs, "mixed": check_cuboid_mixed}
+def check_reinit(case):
+    """case = ("reinit", impl A, LA, impl B, LB, dim, [x...]): one process sets up box A, uses it, resets the setting and
+    sets up box B (unit tests and scripts do this all the time): the results in box B must be those of box B -- nothing
+    computed for box A may survive.  Self-contained, so it replays in a fresh process."""
+    import jellyfysh.setting as setting
+    from jellyfysh.setting import hypercubic_setting, hypercuboid_setting
+    _, ia, LA, ib, LB, dim, xs = case
+
+    def build(impl, L):
+        setting.reset()
+        if impl == "cubic":
+            hypercubic_setting.HypercubicSetting(beta=1.0, dimension=dim, system_length=L)
+        else:
+            hypercuboid_setting.HypercuboidSetting(beta=1.0, dimension=dim, system_lengths=[L] * dim)
+        return setting.periodic_boundaries
+    fails = []
+    pa = build(ia, LA)
+    for x in xs:
+        for i in range(dim):
+            pa.correct_position_entry(x, i)
+            pa.correct_separation_entry(x, i)
+        pa.separation_vector([x] * dim, [0.25 * LA] * dim)
+    pb = build(ib, LB)
+    FL = F(LB)
+    for x in xs:
+        for i in range(dim):
+            r = pb.correct_position_entry(x, i)
+            if not (0.0 <= r < LB) or circle_dist(F(r), F(x), FL) > F(math.ulp(LB)):
+                fails.append(("position-after-reinit", "%s box L=%r set up after a %s box L=%r: correct_position_entry(%r, "
+                              "%d) = %r" % (ib, LB, ia, LA, x, i, r)))
+            s_ = pb.correct_separation_entry(x, i)
+            if abs(s_) > LB / 2.0 or circle_dist(F(s_), F(x), FL) > 2 * F(math.ulp(abs(x) + LB)):
+                fails.append(("separation-after-reinit", "%s box L=%r set up after a %s box L=%r: "
+                              "correct_separation_entry(%r, %d) = %r" % (ib, LB, ia, LA, x, i, s_)))
+        v = pb.separation_vector([x] * dim, [0.25 * LB] * dim)
+        for i in range(dim):
+            if abs(v[i]) > LB / 2.0 or circle_dist(F(v[i]), F(0.25 * LB) - F(x), FL) > 2 * F(math.ulp(abs(x) + LB)):
+                fails.append(("separation-after-reinit", "%s box L=%r set up after a %s box L=%r: separation_vector("
+                              "[%r..], [%r..]) = %r" % (ib, LB, ia, LA, x, 0.25 * LB, v)))
+                break
+    setting.reset()
+    return ("reinit", ia, ib, LA < LB), fails
+
+
+DISPATCH = {"reinit": check_reinit, "pos": check_positions, "sep": check_pairs, "mixed": check_cuboid_mixed}
 
 
 def check_case(case):
@@ -210,6 +254,12 @@ def cases(ctx):
         for a in bp:
             for dim in ((1, 3) if not ctx.thorough else (1, 2, 3)):
                 yield ("sep", L, dim, a, bp)
+    rx = [-12.9, -1.75, -0.35, -1e-17, 0.0, 0.2, 0.29, 0.31, 0.75, 1.0, 1.25, 9.99, 10.5, 12.836, 13.0, 1e6 + 0.25]
+    for LA, LB in ((1.0, 0.3), (0.3, 1.0), (12.836, 10.0), (10.0, 12.836), (1.0, 1.0)):
+        for ia in ("cubic", "cuboid"):
+            for ib in ("cubic", "cuboid"):
+                for dim in (1, 3):
+                    yield ("reinit", ia, LA, ib, LB, dim, rx)
     xs = [-1.75, -1.0, -0.5, -0.25, -1e-17, 0.0, 0.25, 0.5, 0.75, 1.0, 1.25, 3.5, 1e6 + 0.25]
     for Ls in ([1.0, 2.0, 3.0], [0.3, 12.836], [7.3, 0.1, 10.0], [2.0, 1.0]):
         yield ("mixed", Ls, xs)
@@ -229,6 +279,8 @@ def run(ctx):
             evals += len(c[4]) * c[3]
         elif c[0] == "sep":
             evals += 2 * len(c[4]) * c[2]
+        elif c[0] == "reinit":
+            evals += 3 * len(c[6]) * c[5]
         else:
             evals += len(c[1]) * len(c[2])
     flat = set()
